@@ -481,8 +481,9 @@ def St.init : St := ⟨[], 0⟩
 inductive Event where
   /-- the call node at (reversed) path `rp` was reached, its argument evaluated to `arg` -/
   | reach (rp : List Nat) (f : Str) (arg : Value)
-  /-- user function `f` was actually invoked (its `idx`-th invocation overall) -/
-  | invoke (f : Str) (arg : Value) (idx : Nat)
+  /-- user function `f` was actually invoked (its `idx`-th invocation overall) and returned `res`
+      (`none` = it failed); `cached` = the result was stored in the function cache -/
+  | invoke (f : Str) (arg : Value) (idx : Nat) (res : Option Value) (cached : Bool)
 deriving Repr
 
 def cacheGet : List ((Str × Value) × Value) → Str × Value → Option Value
@@ -492,8 +493,8 @@ def cacheGet : List ((Str × Value) × Value) → Str × Value → Option Value
 /-- `call_function(function, param, name)`: invoke, wrap a failure in `UserFunctionError` -/
 def invokeFn (fm : FnModel) (f : Str) (arg : Value) (st : St) : Res Value × St × List Event :=
   match fm.behave st.calls arg with
-  | .ok v => (.ok v, ⟨st.cache, st.calls + 1⟩, [.invoke f arg st.calls])
-  | .error msg => (.err (.userFn f msg), ⟨st.cache, st.calls + 1⟩, [.invoke f arg st.calls])
+  | .ok v => (.ok v, ⟨st.cache, st.calls + 1⟩, [.invoke f arg st.calls (some v) false])
+  | .error msg => (.err (.userFn f msg), ⟨st.cache, st.calls + 1⟩, [.invoke f arg st.calls none false])
 
 /-- `UserFunctions::call` -/
 def callFn (env : Env) (f : Str) (arg : Value) (st : St) : Res Value × St × List Event :=
@@ -505,8 +506,8 @@ def callFn (env : Env) (f : Str) (arg : Value) (st : St) : Res Value × St × Li
       | some v => (.ok v, st, [])
       | none =>
         match fm.behave st.calls arg with
-        | .ok v => (.ok v, ⟨((f, arg), v) :: st.cache, st.calls + 1⟩, [.invoke f arg st.calls])
-        | .error msg => (.err (.userFn f msg), ⟨st.cache, st.calls + 1⟩, [.invoke f arg st.calls])
+        | .ok v => (.ok v, ⟨((f, arg), v) :: st.cache, st.calls + 1⟩, [.invoke f arg st.calls (some v) true])
+        | .error msg => (.err (.userFn f msg), ⟨st.cache, st.calls + 1⟩, [.invoke f arg st.calls none false])
     else invokeFn fm f arg st
 
 /-- `EvalContext::reference` -/
